@@ -395,6 +395,8 @@ Definition mstep (s : mstate) (kind : string) (a : list N) (data : list N) (rl :
       then (0, set_log s (Some (arg 2%nat, arg 1%nat, q)))
       else (15, s)
     else (0, s)
+  else if String.eqb kind "panics" then
+    match res with VN 0 => (0, s) | _ => (5, s) end              (* C05: nothing on the backend side panicked *)
   else if String.eqb kind "set_features" then
     if ok then
       if negb (N.land q (N.lxor (ms_offered s) (2 ^ 64 - 1)) =? 0) then (14, s)      (* accepted only for a subset of the offer *)
